@@ -79,6 +79,12 @@ type Plan struct {
 	// DestroyTag (qtransform only): the transform function answers an input whose value starts with "drop" with an
 	// error tagged qtransform.DestroyOutputTag ("output is not needed anymore"): such an input has no image.
 	DestroyTag bool  `json:"destroytag,omitempty"`
+	// HandlerFail (with Cleanup): the removal handler's n-th invocations (global count) fail before doing anything, with
+	// a plain error (HandlerFailKind 0), an error wrapping context.Canceled (1: a sub-context of the handler was
+	// cancelled; the controller's own context is alive) or one wrapping context.DeadlineExceeded (2). A failed
+	// invocation removed nothing: the cleanup finalizer must stay.
+	HandlerFail     []int `json:"handlerfail,omitempty"`
+	HandlerFailKind int   `json:"handlerfailkind,omitempty"`
 	// Gate (transform with input finalizers only): ids whose FinalizerRemovalFunc refuses, for the whole run, with an
 	// error tagged transform.SkipReconcileTag ("not yet, retry on the next event"): the controller's finalizer then
 	// stays on such an input once it is torn down - and so does its output (nothing else ever removes outputs here).
@@ -113,6 +119,11 @@ func Gen(ctrls []string) func(t *rapid.T) Plan {
 		if p.Cleanup {
 			p.Combine = rapid.Bool().Draw(t, "combine")
 			p.ReactDep = rapid.IntRange(0, 2).Draw(t, "reactdep") == 0
+
+			if rapid.IntRange(0, 2).Draw(t, "hashandlerfail") == 0 {
+				p.HandlerFail = rapid.SliceOfNDistinct(rapid.IntRange(0, 5), 1, 3, rapid.ID[int]).Draw(t, "handlerfail")
+				p.HandlerFailKind = rapid.IntRange(0, 2).Draw(t, "handlerfailkind")
+			}
 		}
 
 		if rapid.IntRange(0, 3).Draw(t, "hasdrop") == 0 {
@@ -509,7 +520,7 @@ func runBubble(p Plan) *Result {
 
 		regErr = w.RT.RegisterController(cleanup.NewController(cleanup.Settings[*hres.A]{
 			Name:    CleanupName,
-			Handler: &recHandler{Handler: inner, w: w, mu: &hmu, res: res},
+			Handler: &recHandler{Handler: inner, w: w, mu: &hmu, res: res, fail: p.HandlerFail, kind: p.HandlerFailKind},
 		}))
 		if regErr != nil {
 			res.Harness = "cleanup registration: " + regErr.Error()
@@ -724,14 +735,36 @@ func runBubble(p Plan) *Result {
 
 type recHandler struct {
 	cleanup.Handler[*hres.A]
-	w   *sim.World
-	mu  *sync.Mutex
-	res *Result
+	w    *sim.World
+	mu   *sync.Mutex
+	res  *Result
+	fail []int
+	kind int
+	n    int
 }
 
 func (h *recHandler) FinalizerRemoval(ctx context.Context, r controller.Runtime, l *zap.Logger, in *hres.A) error {
 	start := h.w.NCommits()
-	err := h.Handler.FinalizerRemoval(ctx, r, l, in)
+
+	h.mu.Lock()
+	n := h.n
+	h.n++
+	h.mu.Unlock()
+
+	var err error
+
+	if slices.Contains(h.fail, n) {
+		switch h.kind {
+		case 1:
+			err = fmt.Errorf("removal handler call #%d gave up: %w", n, context.Canceled)
+		case 2:
+			err = fmt.Errorf("removal handler call #%d gave up: %w", n, context.DeadlineExceeded)
+		default:
+			err = fmt.Errorf("removal handler call #%d failed", n)
+		}
+	} else {
+		err = h.Handler.FinalizerRemoval(ctx, r, l, in)
+	}
 
 	h.mu.Lock()
 	h.res.Handler = append(h.res.Handler, HandlerCall{ID: in.Metadata().ID(), StartLen: start, LogLen: h.w.NCommits(), Nil: err == nil})
